@@ -247,6 +247,27 @@ func runC09(p *an.Prog, r *an.Run, tier string) {
 			bad = append(bad, "connect does not register the host's connection in both maps")
 		}
 	}
+	// every successful host connect (re)registers the calling connection: a conditional registration keeps an older
+	// connection as "the" connection of the host
+	if svcCall != nil {
+		isReg := func(in ssa.Instruction) bool {
+			mu, ok := in.(*ssa.MapUpdate)
+			return ok && memMapField(mu.Map) == "remoteHosts"
+		}
+		isOKReturn := func(in ssa.Instruction) bool {
+			ret, ok := in.(*ssa.Return)
+			if !ok {
+				return false
+			}
+			cls, _ := returnClass(ret)
+			return cls == "nil"
+		}
+		for _, e := range an.ErrEdges(svcCall).Succ {
+			if in := pathFromBlock(conn, e.To, isReg, isOKReturn); in != nil {
+				bad = append(bad, "a host's connect can succeed (return at "+p.Pos(in.Pos())+") without registering the calling connection: the pool would keep instructing an older connection of that host")
+			}
+		}
+	}
 	r.Check(len(bad) == 0, "registered-is-caller", "(*pool.VipnodePool).connect", conn.Pos(), "remoteHosts[nodeID] = CtxService(ctx) and its reverse entry", "%s", strings.Join(dedup(bad), "; "))
 
 	// ---- disconnect-hook
